@@ -29,7 +29,13 @@ func FormatPacketDsl(dsl string) (string, error) {
 		return dsl, fmt.Errorf("syntax errors found: %v", listener.Errors)
 	}
 	formattor := NewPacketDslFormattor(stream)
+	// a marker that does not occur in the text
+	formattor.docNewline = "\x00"
+	for strings.Contains(dsl, formattor.docNewline) {
+		formattor.docNewline += "\x00"
+	}
 	formattedDsl := tree.Accept(formattor).(string)
+	formattedDsl = strings.ReplaceAll(formattedDsl, formattor.docNewline, "\n")
 	return strings.TrimSpace(formattedDsl), nil
 }
 
@@ -47,6 +53,17 @@ type PacketDslFormattor struct {
 	*gen.BasePacketDslVisitor
 	tokenStream  *antlr.CommonTokenStream
 	lineComments map[antlr.Token]struct{}
+	// docNewline stands for a line break inside a documentation string while the text is being
+	// indented, so that the lines of the string itself are left as the author wrote them
+	docNewline string
+}
+
+// docText returns a documentation string with its line breaks protected from indentation
+func (v *PacketDslFormattor) docText(node antlr.TerminalNode) string {
+	if v.docNewline == "" {
+		return node.GetText()
+	}
+	return strings.ReplaceAll(node.GetText(), "\n", v.docNewline)
 }
 
 func (v *PacketDslFormattor) getHiddenLeft(token antlr.Token) string {
@@ -239,7 +256,7 @@ func (v *PacketDslFormattor) VisitFieldDefinition(ctx interface{}) interface{} {
 			field += " " + c.GetFname().GetText()
 		}
 		if c.STRING_LITERAL() != nil {
-			field += " " + c.STRING_LITERAL().GetText()
+			field += " " + v.docText(c.STRING_LITERAL())
 		}
 		b.WriteString(field + ",")
 	case *gen.InerObjectFieldContext:
@@ -316,7 +333,7 @@ func (v *PacketDslFormattor) VisitMetaDataDefinition(ctx *gen.MetaDataDefinition
 func (v *PacketDslFormattor) VisitLengthFieldDeclaration(ctx *gen.LengthFieldDeclarationContext) interface{} {
 	desc := ""
 	if ctx.STRING_LITERAL() != nil {
-		desc = " " + ctx.STRING_LITERAL().GetText()
+		desc = " " + v.docText(ctx.STRING_LITERAL())
 	}
 	typ := ""
 	if ctx.Type_() != nil {
@@ -330,7 +347,7 @@ func (v *PacketDslFormattor) VisitLengthFieldDeclaration(ctx *gen.LengthFieldDec
 func (v *PacketDslFormattor) VisitCheckSumFieldDeclaration(ctx *gen.CheckSumFieldDeclarationContext) interface{} {
 	desc := ""
 	if ctx.STRING_LITERAL() != nil {
-		desc = " " + ctx.STRING_LITERAL().GetText()
+		desc = " " + v.docText(ctx.STRING_LITERAL())
 	}
 	typ := ""
 	if ctx.Type_() != nil {
@@ -350,7 +367,7 @@ func (v *PacketDslFormattor) VisitMetaDataDeclaration(ctx *gen.MetaDataDeclarati
 	fieldName := ctx.GetName().GetText()
 	description := ""
 	if ctx.STRING_LITERAL() != nil {
-		description = ctx.STRING_LITERAL().GetText()
+		description = v.docText(ctx.STRING_LITERAL())
 	}
 
 	formattedDsl.WriteString(strings.TrimSpace(fmt.Sprintf("%s %s %s", typeName, fieldName, description)))
@@ -367,7 +384,7 @@ func (v *PacketDslFormattor) VisitRefMetaDataDeclaration(ctx *gen.RefMetaDataDec
 	fieldName := ctx.GetName().GetText()
 	description := ""
 	if ctx.STRING_LITERAL() != nil {
-		description = " " + ctx.STRING_LITERAL().GetText()
+		description = " " + v.docText(ctx.STRING_LITERAL())
 	}
 
 	formattedDsl.WriteString(strings.TrimSpace(fmt.Sprintf("%s %s%s", typeName, fieldName, description)))
